@@ -42,7 +42,7 @@ Theorem C05_table_lcp_cells_patch :
 Proof. exact table_lcp_cells_fixed. Qed.
 Print Assumptions C05_table_lcp_cells_patch.
 
-(* Today's code agrees with the table everywhere except in the eleven cells of [bad_cells] and
+(* fsm.go before d6fc4b1/488e192 agrees with the table everywhere except in the eleven cells of [bad_cells] and
    except for the LCP-only codes 8-11 arriving at an NCP ... *)
 Theorem C05_table_current_code_partial :
   forall c f e,
@@ -181,7 +181,7 @@ Theorem C05_up_needs_both_acks :
 Proof. exact both_acked_strict_repaired. Qed.
 Print Assumptions C05_up_needs_both_acks.
 
-(* Today's code violates the Terminate clause (Terminate-Request in Ack-Rcvd is not honoured) ... *)
+(* fsm.go before d6fc4b1 violates the Terminate clause (Terminate-Request in Ack-Rcvd is not honoured) ... *)
 Theorem C05_up_needs_both_acks_refuted :
   exists es, both_acked true (trace default_cfg Defective init es) = false.
 Proof. exact both_acked_strict_refuted. Qed.
